@@ -73,6 +73,12 @@ TEXTS = {
         "level_note": "Trusted: typechecks.is_positive_int as specified (C20 UT-PRED); A-API. The defect D1 (cat along dim 0 with a context) was repaired in /repo (fix: commit 8f1efd2).",
         "technique": "static guard dominance over structured control flow + path-condition reasoning on the concatenation axis + normal-form comparison",
     },
+    "C05": {
+        "level_text": "Interface-level necessary conditions, for every Distribution subclass and every context case: public entry points resolve to tensor-returning code (no unresolved attribute, no method returned uncalled), optional parameters are never dereferenced while possibly None (interprocedural, with rejecting-callee summaries), log-density terms / reduction axes / parameter roles of the Bernoulli, Gaussian and mixture families are accounted for by signed-sum normal forms, and sampler row pairing is row-major. Normalising constants, sampling laws and means as expectations are integrals/statistics: NOT decided (including the observed defect in LotkaVolterraOscillating's truncation normaliser).",
+        "design_ref": "DESIGN.md 2.C05",
+        "level_note": "Trusted: A-NET (context encoders), torch.distributions objects behave as documented, A-API. D2 (mean returns a method) and D3 (sample dereferences a None context) were repaired in /repo.",
+        "technique": "static abstract interpretation (name/attribute resolution, None-ness dataflow) + signed-sum term accounting",
+    },
 }
 
 NOT_CLAIMED = {}
